@@ -17,7 +17,10 @@
    (go/cmd/soyverif/c04.go: every generated program is translated by the real
    soyjs.Write, run by node with soyutils.js and compared with the Go render).
    Stages kept for the record:
-     gen_correct_partial_print  : print / if / let / switch      -- not proved
+     gen_correct_partial_print  : ONE {print e|d..} with d over id / noAutoescape / escapeHtml, under any
+                                  autoescape mode (implicit soy.$$escapeHtml included) -- proved below, for
+                                  values whose String() has no NUL and no double quote (finding quote-entity);
+                                  if / let / switch and sequences of statements -- not proved
      gen_correct_partial_loops  : foreach / for / loop helpers   -- not proved
      gen_correct_partial_calls  : call / param / data=           -- not proved
      gen_correct_partial_msg    : msg / plural with a bundle     -- not proved
@@ -26,7 +29,7 @@
    the operand kinds of the subset only. *)
 From Soy Require Import Model.Bytes Model.Num Model.Values Model.Outcome Model.Ast Model.JsGen Model.MiniJS
   Model.Escape Model.Directives Model.Print Generated.Tables Model.Interp
-  Proofs.MiniJSProofs Proofs.MiniJSPrint.
+  Proofs.MiniJSProofs Proofs.MiniJSPrint Proofs.MiniJSStmt.
 Open Scope N_scope.
 
 (* the Soy meaning restricted to the subset IS the walker of Interp.v, and the
@@ -35,7 +38,7 @@ Theorem C04_gen_expr_correct_partial : forall cf sc je st e fuel v,
   (cdepth e < fuel)%nat ->
   env_rel sc (c_ij cf) (sc_lookup (ctx st)) je ->
   ceval (c_ij cf) (sc_lookup (ctx st)) e = Some v ->
-  (exists st', walk cf fuel (cnode e) st = (Ok v, st') /\ ctx st' = ctx st)
+  (exists st', walk cf fuel (cnode e) st = (Ok v, st') /\ pres st st')
   /\ js_eval je (cgen sc e) = Ok (to_js v).
 Proof. exact gen_expr_correct_partial. Qed.
 Print Assumptions C04_gen_expr_correct_partial.
@@ -62,6 +65,63 @@ Theorem C04_cgen_print : forall o e fuel st, (cdepth e < fuel)%nat ->
 Proof. exact cgen_print. Qed.
 Print Assumptions C04_cgen_print.
 
+(* the print stage, for one statement: with autoescaping off, no obligatory
+   directives and a writer that does not fail, {print e} makes the Go renderer
+   write exactly the text that the generated statement  buf += <expr>;  appends
+   to the buffer variable; and that statement is what JsGen emits *)
+Theorem C04_gen_correct_partial_print : forall cf sc je st e fuel v buf old,
+  c_oblig cf = [] -> mode st = 2 -> bufs st = [] -> calls_left st = None -> bytes_left st = None ->
+  (S (cdepth e) < fuel)%nat ->
+  env_rel sc (c_ij cf) (sc_lookup (ctx st)) je ->
+  ceval (c_ij cf) (sc_lookup (ctx st)) e = Some v -> printable_scalar v = true ->
+  assoc_s buf (je_vars je) = Some (JStr old) ->
+  exists s,
+    (exists st', walk cf fuel (NPrint 0 (cnode e) []) st = (Ok VUndef, st')
+                 /\ out st' = s :: out st /\ ctx st' = ctx st /\ mode st' = mode st)
+    /\ (exists je', js_append je buf (cgen sc e) = Ok (s, je')
+                    /\ assoc_s buf (je_vars je') = Some (JStr (old ++ s)) /\ je_data je' = je_data je).
+Proof. exact gen_correct_partial_print. Qed.
+Print Assumptions C04_gen_correct_partial_print.
+
+Theorem C04_cgen_print_stmt : forall o e fuel st, j_auto st = 2 -> (S (cdepth e) < fuel)%nat ->
+  jwalk o fuel (NPrint 0 (cnode e) []) st
+  = Ok (tt, st_after st ([CText (indent_text (j_indent st)); CName (j_buf st); CText t_pluseq]
+                         ++ jprint (cgen (j_scope st) e) ++ [CText t_semi_nl])).
+Proof. exact cgen_print_stmt. Qed.
+Print Assumptions C04_cgen_print_stmt.
+
+(* the print stage with escaping and a directive chain: for {print e|d1|d2..} with the directives id,
+   noAutoescape, escapeHtml (all the directives of the common subset whose encoding does not differ), under
+   ANY autoescape mode: the concatenation of the Write calls of the Go renderer's model is the text that the
+   generated statement  buf += soy.$$escapeHtml(..(<expr>)..);  appends -- provided String() of the value
+   contains no NUL and no double quote (there the escapers differ: finding quote-entity) *)
+Theorem C04_gen_correct_partial_print_esc : forall cf sc je st e ds fuel v buf old,
+  c_oblig cf = [] -> bufs st = [] -> calls_left st = None -> bytes_left st = None ->
+  (S (cdepth e) < fuel)%nat ->
+  env_rel sc (c_ij cf) (sc_lookup (ctx st)) je ->
+  ceval (c_ij cf) (sc_lookup (ctx st)) e = Some v -> printable_scalar v = true ->
+  (forall s, value_string v = Ok s -> clean s) ->
+  assoc_s buf (je_vars je) = Some (JStr old) ->
+  exists text,
+    (exists st' ws, walk cf fuel (NPrint 0 (cnode e) (map pdir_node ds)) st = (Ok VUndef, st')
+                    /\ out st' = rev ws ++ out st /\ concat_b ws = text /\ ctx st' = ctx st /\ mode st' = mode st)
+    /\ (exists je', js_append je buf (cgen_print_expr (mode st) ds (cgen sc e)) = Ok (text, je')
+                    /\ assoc_s buf (je_vars je') = Some (JStr (old ++ text)) /\ je_data je' = je_data je).
+Proof. exact gen_correct_partial_print_esc. Qed.
+Print Assumptions C04_gen_correct_partial_print_esc.
+
+(* ... and that statement is what JsGen writes (every formatter, every state) *)
+Theorem C04_cgen_print_dirs : forall o e ds fuel st, (S (cdepth e) < fuel)%nat ->
+  exists stf, jwalk o fuel (NPrint 0 (cnode e) (map pdir_node ds)) st = Ok (tt, stf)
+    /\ j_out stf = rev ([CText (indent_text (j_indent st)); CName (j_buf st); CText t_pluseq]
+                        ++ jprint (cgen_print_expr (j_auto st) ds (cgen (j_scope st) e)) ++ [CText t_semi_nl]) ++ j_out st.
+Proof. exact cgen_print_dirs. Qed.
+Print Assumptions C04_cgen_print_dirs.
+
+(* on clean text the escapers of the two backends agree *)
+Theorem C04_print_text_agree : forall mode ds s, clean s -> js_print_text mode ds s = go_print_text mode ds s.
+Proof. exact print_text_agree. Qed.
+
 (* ---------------- non-vacuity ---------------- *)
 (* $a?.b + 2 * $x  with  a = {b: 5} in opt_data and x bound by a let (generated variable x3) *)
 Definition ex_e : cexpr :=
@@ -79,6 +139,22 @@ Example C04_nonvacuous :
   /\ js_eval {| je_vars := []; je_data := JObj [] |} (cgen [[]] (CVar (b "a") [CAKey false (b "b")])) = Err je_type
   /\ ceval None (fun _ => None) (CVar (b "a") [CAKey false (b "b")]) = None
   /\ ceval None ex_env (CBin OMul (CInt 9007199254740992) (CInt 2)) = None.
+Proof. vm_compute. repeat split; reflexivity. Qed.
+
+Example C04_print_nonvacuous :
+  js_append {| je_vars := [(b "output", JStr (b "ab")); (b "x3", JNum 4)]; je_data := JObj [(b "a", JObj [(b "b", JNum 5)])] |}
+            (b "output") (cgen ex_sc ex_e)
+  = Ok (b "13", {| je_vars := [(b "output", JStr (b "ab13")); (b "x3", JNum 4)]; je_data := JObj [(b "a", JObj [(b "b", JNum 5)])] |})
+  /\ printable_scalar (VInt 13) = true.
+Proof. vm_compute. split; reflexivity. Qed.
+
+Example C04_print_esc_nonvacuous :
+  let je := {| je_vars := [(b "output", JStr (b "ab")); (b "x3", JNum 4)]; je_data := JObj [(b "a", JObj [(b "b", JStr (b "1<2 & it's"))])] |} in
+  let e := CVar (b "a") [CAKey false (b "b")] in
+  js_append je (b "output") (cgen_print_expr 1 [] (cgen ex_sc e)) = Ok (b "1&lt;2 &amp; it&#39;s", {| je_vars := [(b "output", JStr (b "ab1&lt;2 &amp; it&#39;s")); (b "x3", JNum 4)]; je_data := je_data je |})
+  /\ go_print_text 1 [] (b "1<2 & it's") = b "1&lt;2 &amp; it&#39;s"
+  /\ go_print_text 1 [PEscapeHtml; PId] (b "1<2") = b "1&lt;2" /\ js_print_text 3 [PNoAutoescape] (b "1<2") = b "1<2"
+  /\ js_print_text 1 [] (b "q""q") = b "q&quot;q" /\ go_print_text 1 [] (b "q""q") = b "q&#34;q".
 Proof. vm_compute. repeat split; reflexivity. Qed.
 
 (* env_rel is satisfiable for that environment: x is in the generated variable, a in opt_data *)
